@@ -29,13 +29,22 @@ namespace
       return f;
     }
     UnitFilterBlocked<DT, Index, BS> f(Index(n), ignore_nans);
-    if(order == ORD_ASC) for(auto& e : ref.m) f.add(e.first, tv(e.first));
-    if(order == ORD_DESC) for(auto it = ref.m.rbegin(); it != ref.m.rend(); ++it) f.add(it->first, tv(it->first));
+    std::vector<Index> asc; for(auto& e : ref.m) asc.push_back(e.first);
     if(order == ORD_DUP)
     {
       for(auto& e : ref.m) f.add(e.first, VT(DT(-77)));
       for(auto it = ref.m.rbegin(); it != ref.m.rend(); ++it) f.add(it->first, tv(it->first));
     }
+    else if(order == ORD_INCR)
+    {
+      const size_t half = asc.size() / 2;
+      for(size_t q = asc.size(); q-- > half;) f.add(asc[q], tv(asc[q]));
+      DenseVectorBlocked<DT, Index, BS> scratch(Index(n), DT(1));
+      f.filter_rhs(scratch); f.filter_def(scratch);
+      for(size_t q = 0; q < half; ++q) f.add(asc[q], tv(asc[q]));
+    }
+    else
+      for(Index i : add_order(asc, order)) f.add(i, tv(i));
     return f;
   }
 
@@ -43,24 +52,28 @@ namespace
   void unitb_vectors(verif::Ctx& c, const std::string& kname)
   {
     const int N = c.thorough ? 5 : 4;
-    for(int n = 0; n <= N; ++n) for(unsigned S = 0; S < (1u << n); ++S) for(int order = 0; order < NUM_ORD; ++order)
+    for(int n = 0; n <= N; ++n) for(unsigned S = 0; S < (1u << n); ++S) for(int order = 0; order < NUM_ORD; ++order) for(int fd = 0; fd < FD_CONVERT; ++fd)
     for(int ign = 0; ign < 2; ++ign) for(unsigned nm = 0; nm < (1u << BS); ++nm) for(int op = 0; op < 4; ++op)
     {
       if(order == ORD_ARRAY && S == 0) continue;
       if(order == ORD_DEFAULT && S != 0) continue;
-      if(order == ORD_DUP && S == 0) continue;
+      if((order == ORD_DUP || order == ORD_SCRAMBLED || order == ORD_INCR) && S == 0) continue;
+      if(fd != FD_NONE && !(order == ORD_DESC && n <= 3)) continue;
       if(ign == 0 && nm != 0) continue;   // NaN prescribed values without ignore_nans would be written into the vector: not a meaningful constraint
       if(S == 0 && nm != 0) continue;
       if(!c.want()) continue;
-      c.desc([&]{ return kname + " blocks=" + std::to_string(n) + " constrained=" + set_name(S, n) + " built by: " + ord_name[order] + " ignore_nans=" + std::to_string(ign) + " nan-mask=" + std::to_string(nm) + " op=" + fop_name[op]; });
-      RUnitB ref;
-      auto f = make_unitb<DT, BS>(n, S, order, ign != 0, nm, ref);
-      const auto st0 = sv_state(f.get_filter_vector());
+      c.desc([&]{ return kname + " blocks=" + std::to_string(n) + " constrained=" + set_name(S, n) + " built by: " + ord_name[order] + " filter=" + fd_name[fd] + " ignore_nans=" + std::to_string(ign) + " nan-mask=" + std::to_string(nm) + " op=" + fop_name[op]; });
+      RUnitB ref, rtwin, rother;
+      std::vector<std::shared_ptr<void>> keep;
+      auto f = derive_filter(make_unitb<DT, BS>(n, S, order, ign != 0, nm, ref), fd, keep, [&]{ return make_unitb<DT, BS>(n, ~S & ((1u << n) - 1u), ORD_ASC, false, 0, rother, 2); });
       DenseVectorBlocked<DT, Index, BS> v{Index(n)};
       for(int i = 0; i < n * BS; ++i) v.template elements<Perspective::pod>()[i] = DT(xval(Index(i), 1));
+      // the filter operation is the first access to the freshly built (unsorted) filter
       check_vec(c, kname, f, v, op, [&](Ref& r) { ref.apply(r, op); }, no_cons);
-      c.check(sv_state(f.get_filter_vector()) == st0, kname + ": filter modified by application", "index/value arrays of the filter changed");
-      if(S != 0) c.nontrivial(verif::Hash().str(kname).pod(n).pod(S).pod(order).pod(ign).pod(nm).pod(op).get());
+      auto twin = make_unitb<DT, BS>(n, S, order == ORD_DEFAULT ? ORD_DEFAULT : ORD_ASC, ign != 0, nm, rtwin);
+      c.check(order == ORD_DEFAULT || sv_state(f.get_filter_vector()) == sv_state(twin.get_filter_vector()), kname + ": filter modified by application", "index/value arrays of the filter differ from those of an identically specified filter");
+      if(fd != FD_NONE) c.count("cases_on_derived_filters");
+      if(S != 0) c.nontrivial(verif::Hash().str(kname).pod(n).pod(S).pod(order).pod(fd).pod(ign).pod(nm).pod(op).get());
       c.outcome(std::string("unit-blocked vector") + (nm ? " nan-skip" : ""));
     }
   }
